@@ -538,6 +538,9 @@ pub fn run(tier: &str) -> Result<Report, String> {
     let ext_lists: Vec<Vec<String>> = vec![
         vec!["%p% & EF a".into(), "!{x} in %d%: AX ({x} | %p%)".into()],
         vec!["3{x} in %dom_1%: @{x}: EG %p%".into(), "%p%".into(), "V{x} in %d%: @{x}: AX {x}".into()],
+        // the context archive is used for DOMAINS only (no wild-card proposition in the whole file), and for propositions only
+        vec!["!{x} in %d%: AX {x}".into(), "3{x} in %dom_1%: @{x}: EF a".into()],
+        vec!["%p% | EX %p%".into()],
     ];
     // one formula file per operator: the tool drives the evaluation itself (analysis module), so
     // every operator has to go through it in isolation as well as in mixed files
